@@ -84,6 +84,8 @@ def rule_bindorder(crate):
                 kind = {"scope": "scope-open", "slot": "param-bind"}.get(w)
             elif x["name"] == "pop" and _is_locals_place(x["recv"]) == "scope":
                 kind = "scope-close"
+            elif x["name"] == "insert" and (place_path(x["recv"]) or (0, "", []))[1:] == ("self", ["functions"]):
+                kind = "fn-register"
             elif c.endswith("BytecodeInterpreter::compile_define_variable"):
                 kind = "where-locals"
             elif c.endswith("BytecodeInterpreter::compile_expression"):
@@ -131,6 +133,20 @@ def rule_bindorder(crate):
             out.ok(key, ff, ll, "every %s statement precedes every %s statement" % (a, b))
         else:
             out.violation(key, ff, ll, "%s must come before %s in the DefineFunction arm (frame layout: parameters, where-locals, body): a name would resolve to the wrong slot or not at all" % (a, b))
+    # a function may refer to ITSELF as a value inside its own body (`fn f(n) = … app(f, n - 1)`): the compile-time
+    # table consulted for function values (`self.functions`) must know the name before the body is compiled, like the
+    # VM's own table does (begin_function) for direct recursive calls
+    if "fn-register" in by_kind:
+        first_compile = min(si for k2 in ("where-locals", "body") for si, _ in by_kind[k2])
+        reg = min(si for si, _ in by_kind["fn-register"])
+        node = by_kind["fn-register"][0][1]
+        ff, ll = crate.loc(cs, node)
+        if reg < first_compile:
+            out.ok("compile_statement:DefineFunction:fn-register<body", ff, ll, "the function's name is entered into `self.functions` before its where-clauses and body are compiled")
+        else:
+            out.violation("compile_statement:DefineFunction:fn-register<body", ff, ll, "the function's name is entered into `self.functions` only AFTER its body has been compiled: a reference to the function as a value inside its own body (`fn f(n) = … app(f, n - 1)`) finds no such identifier and the compiler hits `unreachable!(\"Unknown identifier\")`")
+    else:
+        out.error("anchor missing: `self.functions.insert(..)` in the DefineFunction arm of compile_statement")
     out.analysed = {"define_variable_inits": len(init_blocks), "define_variable_binds": len(bind_blocks), "define_function_events": len(events)}
     out.floor("define_function_events", len(events), 5)
     return out
